@@ -12,6 +12,12 @@
 
 package grpctunnel
 
+//@ lockorder tunnelChannel.streamCreation < tunnelChannel.mu
+//@ lockorder tunnelServerStream.writeMu < defaultSender.mu
+//@ lockorder tunnelServerStream.writeMu < noFlowControlSender.mu
+//@ lockorder tunnelClientStream.writeMu < defaultSender.mu
+//@ lockorder tunnelClientStream.writeMu < noFlowControlSender.mu
+
 //@ spec const W0 uint32 = 65536
 //@ spec const CHUNK uint32 = 16384
 
@@ -715,8 +721,8 @@ package grpctunnel
 //@   field numSent, halfClosed guarded_by writeMu
 //@   field metaMu, readMu, writeMu monitor
 //@   invariant wf : ch != nil && stream != nil && sender != nil && receiver != nil && cancel != nil && ctx != nil && gotHeadersSignal != nil && doneSignal != nil && gotHeadersSignal != doneSignal
-//@   invariant wf : forall i int :: 0 <= i && i < len(trailersTargets) ==> trailersTargets[i] != nil
-//@   invariant wf : forall i int :: 0 <= i && i < len(headersTargets) ==> headersTargets[i] != nil
+//@   invariant api : forall i int :: 0 <= i && i < len(trailersTargets) ==> trailersTargets[i] != nil
+//@   invariant api : forall i int :: 0 <= i && i < len(headersTargets) ==> headersTargets[i] != nil
 //@   invariant[C02]     metaMu : @hdrsignal gotHeaders <==> isClosed(gotHeadersSignal)
 //@   invariant[C16]     writeMu : @onerequest !isClientStream ==> numSent <= 1
 //@   invariant[C02,C07] done : @notyetdone !isClosed(doneSignal)
@@ -945,3 +951,68 @@ package grpctunnel
 //@   ensures[C01,C16] @err rerr != nil ==> result == rerr && count("unmarshal") == 0
 //@   locks st.readMu, st.ch.mu, st.metaMu
 //@   assigns st.done, cancel(st.cancel), rclosed(st.receiver), rcancelled(st.receiver), chan(st.doneSignal), chan(st.gotHeadersSignal), elems(st.trailersTargets)
+
+// ----- client: stream creation ------------------------------------------------------
+
+//@ type tunnelChannelCallOption
+//@   field ch immutable
+
+//@ func (*tunnelChannel).allocateStream
+//@   requires held(c.streamCreation)
+//@   requires ctx != nil
+//@   loop 1 invariant true
+//@   loop 2 invariant[C02,C09] @mdalloc md != nil
+//@   at call newReceiver#1
+//@     assert[C06] @window arg2 == 65536
+//@   at call newSender#1
+//@     assert[C06]     @peerwindow arg1 == c.settings.InitialWindowSize
+//@     assert[C04,C14] @senderctx  arg0 == ctx
+//@     assert[C11]     @flowctl    c.useRevision != 0
+//@   at call newSenderWithoutFlowControl#1
+//@     assert[C11] @rev0 c.useRevision == 0
+//@   at call WithCancel#1
+//@     assert[C04,C17] @parent arg0 == old(ctx)
+//@   at call WithValue#1
+//@     assert[C17] @tunnelmd id(arg2) == c.tunnelMetadata
+//@   at call WithValue#2
+//@     assert[C17] @channel id(arg2) == c
+//@   ensures[C04]     @closed   old(c.finished) ==> result2 != nil && result0 == nil && c.lastStreamID == old(c.lastStreamID) && c.streams == old(c.streams)
+//@   ensures[C08]     @exhausted (old(c.lastStreamID) < 0 || old(c.lastStreamID) == math.MaxInt64) ==> result2 != nil
+//@   ensures[C08]     @nextid   result2 == nil ==> result0 != nil && result0.streamID == old(c.lastStreamID) + 1 && result0.streamID > old(c.lastStreamID) && c.lastStreamID == result0.streamID && c.streamCreated
+//@   ensures[C08,C14] @tabled   result2 == nil ==> has(c.streams, result0.streamID) && c.streams[result0.streamID] == result0
+//@   ensures[C08]     @unused   result2 == nil ==> !old(has(c.streams, old(c.lastStreamID) + 1))
+//@   ensures[C08,C14] @onlyone  result2 == nil ==> forall k int64 :: k != result0.streamID ==> has(c.streams, k) == old(has(c.streams, k))
+//@   ensures[C14]     @failed   result2 != nil ==> result0 == nil && forall k int64 :: has(c.streams, k) == old(has(c.streams, k))
+//@   ensures[C08]     @monotone c.lastStreamID >= old(c.lastStreamID)
+//@   ensures[C02,C08] @identity result2 == nil ==> result0.ch == c && result0.stream == c.stream && result0.method == methodName && result0.isClientStream == clientStreams && result0.isServerStream == serverStreams
+//@   ensures[C11]     @mode     result2 == nil ==> (c.useRevision == 0 <==> result0.sender is *noFlowControlSender)
+//@   ensures[C04,C17] @ctx      result2 == nil ==> descends(result0.ctx, old(ctx)) && result0.cancel != nil
+//@   locks c.mu
+//@   assigns *
+//@   nopanic[C02,C09] kinds nilmap, index, slice, typeassert, doubleclose
+
+//@ func (*tunnelChannel).allocateStream$1
+//@   requires c != nil
+//@   at call Send#1
+//@     assert[C01,C13] @envelope first && arg0.StreamId == streamID && arg0.Frame is *tunnelpb.ClientToServer_RequestMessage
+//@     assert[C01,C13] @body as(arg0.Frame, *tunnelpb.ClientToServer_RequestMessage).RequestMessage.Size == totalSize && sameSlice(as(arg0.Frame, *tunnelpb.ClientToServer_RequestMessage).RequestMessage.Data, data)
+//@   at call Send#2
+//@     assert[C01,C13] @continuation !first && arg0.StreamId == streamID && arg0.Frame is *tunnelpb.ClientToServer_MoreRequestData && sameSlice(as(arg0.Frame, *tunnelpb.ClientToServer_MoreRequestData).MoreRequestData, data)
+//@   ensures[C01,C13] @onesend count("carrierSend") == 1
+//@   assigns nothing
+//@   nopanic[C09]
+
+//@ func (*tunnelChannel).allocateStream$2
+//@   assigns nothing
+//@   ensures[C05,C06] @respmsg  frame is *tunnelpb.ServerToClient_ResponseMessage ==> result == len(as(frame, *tunnelpb.ServerToClient_ResponseMessage).ResponseMessage.Data)
+//@   ensures[C05,C06] @moredata frame is *tunnelpb.ServerToClient_MoreResponseData ==> result == len(as(frame, *tunnelpb.ServerToClient_MoreResponseData).MoreResponseData)
+//@   ensures[C05,C06] @other    !(frame is *tunnelpb.ServerToClient_ResponseMessage) && !(frame is *tunnelpb.ServerToClient_MoreResponseData) ==> result == 0
+//@   nopanic[C09]
+
+//@ func (*tunnelChannel).allocateStream$3
+//@   requires c != nil && str != nil
+//@   at call Send#1
+//@     assert[C05,C13] @creditframe arg0.StreamId == streamID && arg0.Frame is *tunnelpb.ClientToServer_WindowUpdate && as(arg0.Frame, *tunnelpb.ClientToServer_WindowUpdate).WindowUpdate == windowUpdate
+//@   ensures[C05,C13] @atmostone count("carrierSend") <= 1
+//@   assigns nothing
+//@   nopanic[C09]
